@@ -28,7 +28,19 @@ async def emit_case(case):
         creds = V2C(community)
     else:
         creds = creds_for(proto)
-    c = Client("192.0.2.1", creds, sender=sender, context_name=bytes(case.get("ctxname", b"")), engine_id=bytes(case.get("ctxengine", b"")))
+    if case.get("initial"):
+        # the client is built for another credential family first and then switched (C05: the datagram must follow the credentials in force)
+        ini = {"v1": V1("first"), "v2c": V2C("first")}.get(case["initial"]) or creds_for(case["initial"])
+        c = Client("192.0.2.1", ini, sender=sender, context_name=bytes(case.get("ctxname", b"")), engine_id=bytes(case.get("ctxengine", b"")))
+        if case.get("warm"):
+            try:
+                await c.get(OID("1.3.6.1.2.1.1.1.0"))
+            except Exception:  # noqa
+                pass
+            sent.clear()
+        c.configure(credentials=creds)
+    else:
+        c = Client("192.0.2.1", creds, sender=sender, context_name=bytes(case.get("ctxname", b"")), engine_id=bytes(case.get("ctxengine", b"")))
     real = U.time
     U.time = lambda: case["reqid"]
     op = case["op"]
@@ -75,7 +87,11 @@ async def emit_case(case):
         else:
             u = USERS[proto]
             fl = (1 if u.auth else 0) | (2 if u.priv else 0) | 4
-            if k == 0:      # RFC 3414 section 4 discovery probe
+            try:
+                is_probe = parse_v3(raw)["engine"] == b"" and k == 0
+            except Exception:  # noqa
+                is_probe = k == 0
+            if is_probe:      # RFC 3414 section 4 discovery probe
                 intended = dict(form="v3", ptype=GET, reqid=reqid, f1=[0], f2=[0], oids=[], vals=[], msgid=reqid, flags=4, engine=[], boots=[0], time=[0],
                                 user=[], authlen=0, ctxengine=[], ctxname=[])
             else:
@@ -138,7 +154,19 @@ async def deliver_case(case):
     U.time = lambda: case.get("reqid", 1000)
     try:
         try:
-            r = await c.multiget([OID(".".join(map(str, a))) for a in arcs])
+            api = case.get("api", "multiget")
+            O = [OID(".".join(map(str, a))) for a in arcs]
+            if api == "get":
+                r = [await c.get(O[0])]
+            elif api == "getnext":
+                r = [(await c.getnext(OID(".".join(map(str, arcs[0][:-1]))))).value]
+            elif api == "walk":
+                r = []
+                async for vb in c.walk(OID(".".join(map(str, arcs[0][:-1])))):
+                    r.append(vb.value)
+                    break
+            else:
+                r = await c.multiget(O)
             got = dict(kind="result", vals=[form_of_x690(v) for v in r])
         except Exception as e:  # noqa
             got = dict(kind="exc", cls=exc_name(e), vals=[])
